@@ -373,11 +373,12 @@ impl Property for P {
                 // the real FramedRead must deliver the same frames (and codec error) as the manual loop
                 let f = framed(*mms, *msl, segs);
                 let a_frames: &[i128] = if a.len() >= 2 && a[a.len() - 2] == -30 { &a[..a.len() - 2] } else { &a[..] };
-                let mut out = a.clone();
+                // SAME + the segmented result when feeding the whole stream gives the identical result,
+                // else DIFF, segmented, separator, whole; -99 if the real FramedRead disagreed
+                let mut out: Vec<i128> = vec![if a == b { -8 } else { -9 }];
+                out.extend(a.iter());
                 if f != a_frames { out.push(-99); }
-                // second half: the whole stream fed at once; elided to the marker -8 when identical
-                out.push(-7);
-                if a == b { out.push(-8); } else { out.extend(b.iter()); }
+                if a != b { out.push(-7); out.extend(b.iter()); }
                 let nframes = b.iter().filter(|x| **x == -20).count();
                 let status = match b.last() { Some(-10) => "toolarge", Some(-11) => "decerr", Some(-12) => "commerr", Some(-2) => "panic",
                     _ => if b.len() >= 2 && b[b.len() - 1] > 0 { "residue" } else { "clean" } };
